@@ -1304,7 +1304,10 @@ META = {
                   'l2_reproduces, mass_injective (positive weights + unisolvent basis => injective Gram matrix), l2_kron_reproduces (Kronecker path), '
                   'interp_is_projection / interp_values_projection / l2_projection_is_projection (idempotence, any exact solver), '
                   'greville_satisfies_sw_necessary (positive diagonal at the Greville points, every degree >= 1, on C19 + C02), greville_unisolvent_p01 '
-                  '(collocation matrix at the Greville points of an open knot vector of degree 0/1 is the identity), greville_p01_solver_contract. '
+                  '(collocation matrix at the Greville points of an open knot vector of degree 0/1 is the identity), greville_p01_solver_contract, '
+                  'interp_reproduces_on_grid (data known only on the node grid), tensor_grid_unisolvent / tensor_grid_kernel_trivial (tensor grid unisolvent from '
+                  'per-axis left inverses), interp_component_selection(_physical) and l2_kron_componentwise (component selection commutes with the pipelines, any value shape), '
+                  'apply_tprod_1d, hspace_gram_is_galerkin / hspace_load_is_restriction / hspace_l2_{reproduces,orthogonal}_partial. '
                   'Tie: approx.interpolate (default Greville and custom nodes, splines/polynomials/arrays, scalar/vector/matrix data, affine geometry) '
                   'against the exact model by vm_compute (20 quick / 96 thorough cases) within the bound stated in harness/props/c17.py, Greville nodes and '
                   'singular-grid status included; every case (dims 1..3, degrees 0..6, NURBS/B-spline/twisted geometries, 1D routines, pull-back route) '
